@@ -27,8 +27,8 @@ from vcheck import fmt_q, fmt_vec, fmt_crs
 import gen
 import props.krylov_cases as kc
 
-ATOL = F(1, 2 ** 40)      # ~ 9e-13 absolute
-RTOL = F(1, 2 ** 30)      # ~ 9e-10 relative to the true relative residual
+ATOL = F(1, 2 ** 44)      # ~ 6e-14 absolute   (observed on 4000 thorough cases: < 2^-48 + 2^-42 * true)
+RTOL = F(1, 2 ** 36)      # ~ 1.5e-11 relative to the true relative residual
 
 # ------------------------------------------------------------------ blocks <-> scalars
 def blocks_of(n2, rows):
